@@ -49,6 +49,9 @@ struct Case {
     m0: usize,
     at: u64,
     m1: usize,
+    /// instead of a link change at step `at`: the client's source address changes there (NAT
+    /// rebinding), so path validation runs while application datagrams are queued
+    rebind: bool,
 }
 
 struct Limits {
@@ -189,13 +192,25 @@ fn run_case(base: Instant, c: &Case, dump: bool) -> (u64, Vec<(String, String)>,
             w.link_mtu = c.m0;
             w.probe_pre = true;
         });
-        let mut script = vec![(c.at, Op::LinkMtu(c.m1))];
+        let mut script = if c.rebind {
+            // (an address change before the handshake is confirmed is not a migration: count from there)
+            let mut g = 0;
+            while g < 400 && !p.client().app.obs.handshake_confirmed {
+                g += 1;
+                if !p.w.step() {
+                    break;
+                }
+            }
+            vec![(p.w.steps + (c.at - 10), Op::Rebind(CLIENT, crate::sim::addr(9)))]
+        } else {
+            vec![(c.at, Op::LinkMtu(c.m1))]
+        };
         if c.cfg.contains("pathchanged") {
             script.push((c.at, Op::PathChanged(CLIENT)));
             script.push((c.at + 4, Op::PathChanged(SERVER)));
         }
         let done = drive(&mut p, &script, 60_000, Duration::from_secs(900));
-        if done && c.wl == Wl::W13 {
+        if done && (c.wl == Wl::W13 || c.wl == Wl::W14) {
             // datagrams are not part of "done": let the queue drain and the network go quiet
             let limit = p.w.t + Duration::from_secs(60);
             let mut n = 0;
@@ -256,7 +271,7 @@ pub fn main(args: &Args) -> ! {
     let mut rep = Report::new("C13", args, "fault_enumeration");
     let thorough = args.tier == Tier::Thorough;
     let dl = deadline(if thorough { 1500 } else { 45 });
-    rep.rule = "E3 on real endpoints over a link that silently drops datagrams larger than M(t): every (M0, change step, M1) triple with M in {1200,1280,1400,1452,1500,9000} and the change at each listed step index, for configurations varying initial_mtu / min_mtu / discovery (default, off, upper bound 9000) / peer max_udp_payload_size / GSO / pad-to-MTU / certificate size, and workloads W1, W5 (application datagrams), W6. Every emitted datagram is checked against current_mtu() read before the poll_transmit call, the probe bounds, the 1200-byte rules (client Initial, path validation, loss probes), GSO segment equality, and the MTU estimate may rise only to the size of a probe that was delivered; the workload must still complete. Non-trivial = trace differs from the unconstrained-link baseline of the configuration; distinct = distinct trace hashes.".into();
+    rep.rule = "E3 on real endpoints over a link that silently drops datagrams larger than M(t): every (M0, change step, M1) triple with M in {1200,1280,1400,1452,1500,9000} and the change at each listed step index, for configurations varying initial_mtu / min_mtu / discovery (default, off, upper bound 9000) / peer max_udp_payload_size / GSO / pad-to-MTU / certificate size, and workloads W1, W5 (application datagrams), W6, W13 (more near-maximum datagrams than a congestion window); plus a client address change at every step of a window (path validation while datagrams and stream data are queued). Every emitted datagram is checked against current_mtu() read before the poll_transmit call, the probe bounds, the 1200-byte rules (client Initial, path validation, loss probes), GSO segment equality, and the MTU estimate may rise only to the size of a probe that was delivered; the workload must still complete. Non-trivial = trace differs from the unconstrained-link baseline of the configuration; distinct = distinct trace hashes.".into();
     let ms: Vec<usize> = vec![1200, 1280, 1400, 1452, 1500, 9000];
     let steps: Vec<u64> = if thorough { (0..160).step_by(2).collect() } else { vec![0, 6, 12, 18, 24, 30, 40, 50, 60, 80, 100, 140] };
     let mut cases = vec![];
@@ -277,8 +292,27 @@ pub fn main(args: &Args) -> ! {
                         if m0 == m1 && at != 0 {
                             continue;
                         }
-                        cases.push(Case { cfg: c.client.name.clone(), wl, m0, at, m1 });
+                        cases.push(Case { cfg: c.client.name.clone(), wl, m0, at, m1, rebind: false });
                     }
+                }
+            }
+        }
+    }
+    // path validation (1200-byte rule) while datagrams and stream data are queued: the client's
+    // address changes at every step of a window
+    let mut n_rebind = 0u64;
+    for c in cfgs() {
+        if c.client.name.contains("pathchanged") {
+            continue;
+        }
+        for wl in [Wl::W13, Wl::W14, Wl::W5, Wl::W6] {
+            for m in [9000usize, 1452] {
+                if m < c.client.initial_mtu as usize {
+                    continue;
+                }
+                for at in (10..(if thorough { 80 } else { 44 })).step_by(if thorough { 1 } else { 2 }) {
+                    cases.push(Case { cfg: c.client.name.clone(), wl, m0: m, at, m1: m, rebind: true });
+                    n_rebind += 1;
                 }
             }
         }
@@ -289,7 +323,7 @@ pub fn main(args: &Args) -> ! {
     let mut probes = 0u64;
     let mut baselines = BTreeMap::new();
     for (c, (tr, _, _)) in &res {
-        if c.m0 == 9000 && c.m1 == 9000 {
+        if c.m0 == 9000 && c.m1 == 9000 && !c.rebind {
             baselines.insert((c.cfg.clone(), c.wl), *tr);
         }
     }
@@ -302,12 +336,12 @@ pub fn main(args: &Args) -> ! {
         for (sig, what) in v {
             rep.violation(Violation {
                 signature: sig.clone(),
-                what: format!("cfg={} wl={:?} link MTU {} -> {} at step {}: {what}", c.cfg, c.wl, c.m0, c.m1, c.at),
-                replay: json!({"check":"c13","cfg":c.cfg,"wl":format!("{:?}",c.wl),"m0":c.m0,"at":c.at,"m1":c.m1}),
+                what: format!("cfg={} wl={:?} link MTU {} -> {} at step {}{}: {what}", c.cfg, c.wl, c.m0, c.m1, c.at, if c.rebind { " (client address change there instead)" } else { "" }),
+                replay: json!({"check":"c13","cfg":c.cfg,"wl":format!("{:?}",c.wl),"m0":c.m0,"at":c.at,"m1":c.m1,"rebind":c.rebind}),
             });
         }
     }
-    rep.part("link_mtu_triples", json!({"cases": total, "executed": res.len(), "mtu_probes_observed": probes, "capped": capped}));
+    rep.part("link_mtu_triples", json!({"cases": total, "executed": res.len(), "mtu_probes_observed": probes, "client_address_change_cases": n_rebind, "capped": capped}));
     if probes == 0 {
         machinery("vacuity guard: no MTU probe was ever observed");
     }
@@ -330,6 +364,7 @@ fn replay(args: &Args) -> ! {
         m0: r["m0"].as_u64().unwrap() as usize,
         at: r["at"].as_u64().unwrap(),
         m1: r["m1"].as_u64().unwrap() as usize,
+        rebind: r["rebind"].as_bool().unwrap_or(false),
     };
     let (_, v, probes) = run_case(Instant::now(), &c, true);
     println!("violations={v:?} probes={probes}");
